@@ -1,9 +1,9 @@
-(* Proofs/GenEquivCma.v — CMADeme._values_for_cma, TRANSLATED from the current cma_deme.py (Gen/GenCma.v): CMA-ES minimises what it is
+(* Proofs/GenEquivDirection.v — CMADeme._values_for_cma, TRANSLATED from the current cma_deme.py (Gen/GenDirection.v): CMA-ES minimises what it is
    told, and what it is told orders the individuals exactly as the problem does: a smaller told value = a strictly better fitness, in both
    directions (the driver translator checks that tell() receives these values for the deme's most recent generation). *)
 From Coq Require Import ZArith Bool List.
 From Flocq Require Import BinarySingleNaN.
-From HV Require Import F64 WMonad GenCma.
+From HV Require Import F64 WMonad GenDirection.
 Import ListNotations.
 
 Lemma compare_opp (a b : f64) : Bcompare (Bopp a) (Bopp b) = Bcompare b a.
@@ -29,3 +29,13 @@ Proof.
   intros Hi Hj. unfold gen_values_for_cma. destruct mx; [|reflexivity].
   rewrite (nth_indep _ d (fneg d)), (nth_indep (map fneg fs) d (fneg d)) by (rewrite map_length; assumption). rewrite !map_nth. apply flt_opp.
 Qed.
+
+(* LocalDeme: scipy minimises gen_local_objective; when it reports, for an iterate x, the value of that function at x (contract X5, measured
+   on every trace), the callback records x with the objective's own value f x — in both directions *)
+Theorem local_iterate_recorded_with_its_own_fitness {G} mx (f : G -> F) (x : G) :
+  gen_local_recorded mx x (gen_local_objective mx f x) = (x, f x).
+Proof. unfold gen_local_recorded, gen_local_objective, fneg. destruct mx; [|reflexivity]. now rewrite Bopp_involutive. Qed.
+(* and scipy is steered in the problem's direction: a smaller value of what it minimises = a strictly better fitness *)
+Theorem local_objective_order {G} mx (f : G -> F) (x y : G) :
+  flt (gen_local_objective mx f x) (gen_local_objective mx f y) = if mx then flt (f y) (f x) else flt (f x) (f y).
+Proof. unfold gen_local_objective. destruct mx; [apply flt_opp|reflexivity]. Qed.
